@@ -122,7 +122,10 @@ CHECKS = {
             "finding F9.",
             "Coq proof (Flocq monotone rounding; exact small-integer float arithmetic; Collatz-Wielandt) + vm_compute "
             "evaluation of the float model and of certificates", "5 C17"),
-    "C18": ("Theorems: argsort yields a permutation for any keys, digit->position and position->digit are inverse for any table "
+    "C18": ("REGENERATED: create_random_shuffles is translated from the current source on every run (MiniPyD; the permutations "
+            "numpy.random.shuffle applies are a parameter, numpy.random.seed an external function) and proved equal to the model: "
+            "C18_table_source, C18_seed_and_verbose_irrelevant_source, C18_bad_seed_source; encode / decode are regenerated too.  "
+            "Theorems: argsort yields a permutation for any keys, digit->position and position->digit are inverse for any table "
             "row, for permutation rows the code's choice is the rank-selected live arc and digit<->arc is a bijection; the 24 x "
             "15 space is swept exhaustively inside Coq; the NumPy RNG is NOT modelled, so reproducibility and the table's "
             "row-permutation shape are run-time checks of create_random_shuffles (partial on the RNG, as DESIGN.md section 7 says).",
